@@ -786,6 +786,7 @@ func (s *Subscriber) watch() {
 
 		verifhook.Point("watch.recv", amsg.PeerID)
 		hnd := s.getOrCreateHandler(amsg.PeerID, false)
+		verifhook.Point("watch.gothandler", amsg.PeerID)
 
 		// Set the message to be handled by the waiting goroutine.
 		oldMsg := hnd.pendingMsg.Swap(&amsg)
